@@ -279,7 +279,10 @@ struct SimRunner : public CommandRunner {
     std::string key = o; key.push_back('\0'); if (!r.st->nocmd) key += r.cmd; key.push_back('\0'); if (!r.st->nocmd) key += r.rsp_content; key.push_back('\0');
     std::vector<std::pair<std::string, std::string>> rd = r.read;
     std::sort(rd.begin(), rd.end());
-    for (auto& pc : rd) { key += pc.first; key.push_back('\0'); key += pc.second; key.push_back('\0'); }
+    for (auto& pc : rd) {
+      if (pc.second == "// hollow\n") continue;   // read and reported, but nothing in it reaches the output (simlib.HOLLOW)
+      key += pc.first; key.push_back('\0'); key += pc.second; key.push_back('\0');
+    }
     return "G" + HashHex(key);
   }
 
